@@ -38,6 +38,12 @@ def mk(kind, Scr, classes):
         return PooledClient(("h", 1), socket_module=Scr.sm, default_noreply=True, encoding="utf8", max_pool_size=2)
     if kind == "HashUtf8":
         return HashClient([("h", 1)], socket_module=Scr.sm, default_noreply=True, encoding="utf8", retry_attempts=0, retry_timeout=0, dead_timeout=0)
+    if kind == "ClientPfx":
+        return Client(("h", 1), socket_module=Scr.sm, default_noreply=True, key_prefix=b"pfx:")
+    if kind == "PooledPfx":
+        return PooledClient(("h", 1), socket_module=Scr.sm, default_noreply=True, key_prefix=b"pfx:", max_pool_size=2)
+    if kind == "HashPfx":
+        return HashClient([("h", 1)], socket_module=Scr.sm, default_noreply=True, key_prefix=b"pfx:", retry_attempts=0, retry_timeout=0, dead_timeout=0)
     if kind == "PooledDnr":
         return PooledClient(("h", 1), socket_module=Scr.sm, default_noreply=True, max_pool_size=2)
     if kind == "Pooled":
@@ -58,9 +64,9 @@ def client_socks(kind, obj):
     def of_client(c):
         if getattr(c, "sock", None) is not None:
             out.append(c.sock)
-    if kind in ("Client", "ClientDnr", "ClientDnr1", "ClientIgn", "ClientUtf8", "ClientUnix"):
+    if kind in ("Client", "ClientDnr", "ClientDnr1", "ClientIgn", "ClientUtf8", "ClientUnix", "ClientPfx"):
         of_client(obj)
-    elif kind in ("Pooled", "PooledDnr", "PooledUtf8"):
+    elif kind in ("Pooled", "PooledDnr", "PooledUtf8", "PooledPfx"):
         for c in list(obj.client_pool._free_objs) + list(obj.client_pool._used_objs):
             of_client(c)
     else:
@@ -80,8 +86,8 @@ def run_sequence(ctx, kind, classes, seq, rng, model_lines, model_meta):
     W = S.world
     desc = []
     for n, (call, script) in enumerate(seq):
-        is_client = kind in ("Client", "ClientDnr", "ClientDnr1", "ClientIgn", "ClientUtf8", "ClientUnix")
-        dnr = kind in ("ClientDnr", "ClientDnr1", "PooledDnr", "ClientUtf8", "PooledUtf8", "HashUtf8")
+        is_client = kind in ("Client", "ClientDnr", "ClientDnr1", "ClientIgn", "ClientUtf8", "ClientUnix", "ClientPfx")
+        dnr = kind in ("ClientDnr", "ClientDnr1", "PooledDnr", "ClientUtf8", "PooledUtf8", "HashUtf8", "ClientPfx", "PooledPfx", "HashPfx")
         open_before = is_client and obj.sock is not None
         leftover_before = []
         if open_before:
@@ -121,7 +127,7 @@ def run_sequence(ctx, kind, classes, seq, rng, model_lines, model_meta):
                 cf = None         # a UNIX-socket path is not resolved: that fault never fires
             sfk = script.get("send_fault")
             from clientlib import SOCK_CODES
-            line = (f"call {cfg_tok(utf8=(kind == 'ClientUtf8'), dnr=dnr, ign=(kind == 'ClientIgn'))} open={int(open_before)} {call_tokens(call)} "
+            line = (f"call {cfg_tok(utf8=(kind == 'ClientUtf8'), dnr=dnr, ign=(kind == 'ClientIgn'), pfx=(b'pfx:' if kind == 'ClientPfx' else b''))} open={int(open_before)} {call_tokens(call)} "
                     f"cf={'x' + str(SOCK_CODES[cf[1]]) if cf else '-'} sf={'x' + str(SOCK_CODES[sfk]) if sfk else '-'} {ev_tokens(evs)}")
             sock_open = obj.sock is not None
             unread = W.leftover(obj.sock) if sock_open else None
@@ -174,13 +180,22 @@ def main(argv):
     hostile = [{"op": "get", "k": "nokey\r\nversion"}, {"op": "get", "k": b"nokey\nversion"}, {"op": "delete", "k": "a\r\ndelete b", "nr": False},
                {"op": "set", "k": "x\r\nversion", "v": b"1", "nr": False}, {"op": "touch", "k": "k\r\nversion", "e": 0, "nr": False},
                {"op": "get_many", "ks": ["a", "b\r\nget c"]}, {"op": "incr", "k": "n\tversion", "d": 1, "nr": False}, {"op": "gets", "k": "g\rversion"},
-               {"op": "delete_many", "ks": ["a", "b\r\nversion"], "nr": True}, {"op": "set", "k": "x\r\nversion", "v": b"1", "nr": True}]
-    for kind in kinds:
+               {"op": "delete_many", "ks": ["a", "b\r\nversion"], "nr": True}, {"op": "set", "k": "x\r\nversion", "v": b"1", "nr": True},
+               # a cas token (bytes, as `gets` hands it out) that is not a number: one that ends the command line early, an empty one, one that
+               # carries the noreply marker itself
+               {"op": "cas", "k": "a", "v": b"6", "cas": b"12\n", "nr": True}, {"op": "cas", "k": "a", "v": b"6", "cas": b"", "nr": True},
+               {"op": "cas", "k": "a", "v": b"6", "cas": b"12 noreply", "nr": False}, {"op": "cas", "k": "a", "v": b"version", "cas": b"1\r\n", "nr": True},
+               # keys at the length limit: legal / too long only once the prefix is counted (the Pfx classes) / too long anyway
+               {"op": "set", "k": "k" * 246, "v": b"version", "nr": None}, {"op": "set", "k": "k" * 248, "v": b"version", "nr": None},
+               {"op": "set", "k": "k" * 250, "v": b"version", "nr": True}, {"op": "set", "k": "k" * 251, "v": b"version", "nr": True},
+               {"op": "set_many", "items": [("a", b"1"), ("k" * 249, b"version")], "nr": None}, {"op": "append", "k": b"k" * 247, "v": b"version", "nr": None},
+               {"op": "delete", "k": "k" * 250, "nr": None}, {"op": "touch", "k": "k" * 247, "e": 1, "nr": None}]
+    for kind in kinds + ["ClientPfx", "PooledPfx", "HashPfx"]:
         for hi, call in enumerate(hostile):
             for chunkmode in ("bytes", "rand"):
                 seq = [({"op": "set", "k": "a", "v": b"7", "nr": False}, {}), (call, {"chunk": chunkmode}), (followups[hi % len(followups)], {"chunk": chunkmode}),
                        (followups[(hi + 3) % len(followups)], {}), ({"op": "version"}, {})]
-                run_sequence(ctx, kind, classes, seq, rng, model_lines if kind in ("Client", "ClientDnr", "ClientIgn") else None, model_meta)
+                run_sequence(ctx, kind, classes, seq, rng, model_lines if kind in ("Client", "ClientDnr", "ClientIgn", "ClientPfx") else None, model_meta)
                 ctx.case(("hostile-key", kind, hi, chunkmode))
                 ctx.count("hostile-keys")
     # one memcached key spelled twice in one call (str and bytes), and text values whose encoded length differs from their character count
